@@ -444,9 +444,58 @@ fn replay(path: &str) -> i32 {
 
 /// Determinism self-check: the same units in fresh processes at several worker counts must
 /// give the same digest.
+/// The clock seam must own `std::time::Instant` as well as `web_time::Instant` on a thread
+/// with a schedule installed, and must leave every other thread on the real clock.
+fn selftest_clock_seam() -> bool {
+    use web_time::sim::{self, Schedule};
+    let mut ok = true;
+    let real0 = std::time::Instant::now();
+    std::thread::sleep(std::time::Duration::from_millis(2));
+    if real0.elapsed() < std::time::Duration::from_millis(2) {
+        println!("clock seam: real clock not advancing outside a simulation");
+        ok = false;
+    }
+    sim::install(Schedule::Frozen, 1000);
+    let a = std::time::Instant::now();
+    std::thread::sleep(std::time::Duration::from_millis(2));
+    let b = std::time::Instant::now();
+    let w = web_time::Instant::now();
+    let rep = sim::uninstall();
+    if b.duration_since(a) != std::time::Duration::ZERO || rep.std_reads != 2 || rep.reads != 3 {
+        println!("clock seam: frozen schedule not seen by std::time ({:?}, {rep:?})", b.duration_since(a));
+        ok = false;
+    }
+    let _ = w;
+    sim::install(Schedule::JumpAt { k: 2, nanos: 5_000_000_000 }, 1000);
+    let a = std::time::Instant::now();
+    let b = std::time::Instant::now();
+    let c = std::time::Instant::now();
+    sim::uninstall();
+    if b.duration_since(a) != std::time::Duration::from_secs(5) || c != b {
+        println!("clock seam: jump schedule not seen by std::time");
+        ok = false;
+    }
+    // another thread, no schedule: real clock even while this thread is simulated
+    sim::install(Schedule::Frozen, 1000);
+    let other = std::thread::spawn(|| {
+        let t = std::time::Instant::now();
+        std::thread::sleep(std::time::Duration::from_millis(2));
+        t.elapsed()
+    })
+    .join()
+    .unwrap();
+    sim::uninstall();
+    if other < std::time::Duration::from_millis(2) {
+        println!("clock seam: simulation leaked to another thread");
+        ok = false;
+    }
+    println!("clock seam (web_time + std::time through clock_gettime): {}", if ok { "ok" } else { "BROKEN" });
+    ok
+}
+
 fn selftest_determinism() -> i32 {
     let exe = std::env::current_exe().unwrap();
-    let mut ok = true;
+    let mut ok = selftest_clock_seam();
     for prop in ["C15", "C04", "C05", "C14", "C07"] {
         let mut digests = Vec::new();
         for threads in ["1", "4", "16", "16"] {
